@@ -61,8 +61,12 @@ pub struct Sub {
 
 #[derive(Clone, Debug, Default)]
 pub struct ObsModel {
+    /// record-setting heartbeat values seen in digests since the copy was created
     pub count: u64,
     pub last_ms: u64,
+    /// highest heartbeat seen in any digest since the copy was created: equal and lower values
+    /// are replays whatever the node has on record at the moment (a gossip reset zeroes the record)
+    pub max_seen: u64,
 }
 
 pub type Call = (usize, String, String, Id);
